@@ -448,6 +448,8 @@ class Explorer:
                     # vacuous; the count of pruned paths goes into the evidence, and the must-fail mutants are
                     # the guard against vacuous contracts.
                     self.stats['paths_pruned_by_callee_post'] += 1
+                    if os.environ.get('PYVC_DEBUG'):
+                        print(f'[pyvc] callee post clause concretely false: {c.name}[{k}]', flush=True)
                 P.assume(cond, fact=True)
         return None if is_init else result
 
